@@ -8,6 +8,29 @@ from .core import (Ref, HObj, HList, HByteArray, HDict, HSet, VBytes, VStr, Buil
 from .frontend import ClassInfo, FuncInfo
 
 
+class HSeq:
+    """a list of byte-range ints whose length is symbolic (only ever turned into bytes)"""
+    __slots__ = ("term",)
+
+    def __init__(self, term):
+        self.term = term
+
+    def clone(self):
+        return HSeq(self.term)
+
+
+def _seq_term(o):
+    if isinstance(o, HSeq):
+        return o.term
+    if all(isinstance(x, (int, SInt)) and not isinstance(x, bool) for x in o.items):
+        for x in o.items:
+            lo, hi = sym.rng(x)
+            if lo < 0 or hi > 255:
+                return None
+        return bts.from_cells(list(o.items))
+    return None
+
+
 def is_intlike(v):
     return isinstance(v, (int, SInt, SBool)) and not isinstance(v, float)
 
@@ -48,7 +71,7 @@ def type_name(it, v):
         o = it.ctx.obj(v)
         if isinstance(o, HByteArray):
             return "bytearray"
-        if isinstance(o, HList):
+        if isinstance(o, (HList, HSeq)):
             return "list"
         if isinstance(o, HDict):
             return "dict"
@@ -332,12 +355,20 @@ def binop(it, op, a, b):
         return a + b
     if isinstance(a, tuple) and is_conc(b) and op == "Mult":
         return a * b
-    if isinstance(a, Ref) and isinstance(it.ctx.obj(a), HList):
+    if isinstance(a, Ref) and isinstance(it.ctx.obj(a), (HList, HSeq)):
         la = it.ctx.obj(a)
-        if op == "Add" and isinstance(b, Ref) and isinstance(it.ctx.obj(b), HList):
-            return it.ctx.alloc(HList(la.items + it.ctx.obj(b).items))
-        if op == "Mult" and is_conc(b):
+        lb = it.ctx.obj(b) if isinstance(b, Ref) else None
+        if op == "Add" and isinstance(la, HList) and isinstance(lb, HList):
+            return it.ctx.alloc(HList(la.items + lb.items))
+        if op == "Mult" and isinstance(la, HList) and is_conc(b):
             return it.ctx.alloc(HList(la.items * b))
+        # lists of byte values with a symbolic length ([0] * n, [reg] + [0] * n): kept as a byte term
+        if op == "Mult" and isinstance(la, HList) and is_intlike(b) and len(la.items) == 1 and is_conc(la.items[0]) and 0 <= la.items[0] <= 255:
+            return it.ctx.alloc(HSeq(bts.repeat(bts.from_cells(la.items), sym.as_int(b))))
+        if op == "Add" and isinstance(lb, (HList, HSeq)):
+            ta2, tb2 = _seq_term(la), _seq_term(lb)
+            if ta2 is not None and tb2 is not None:
+                return it.ctx.alloc(HSeq(bts.concat(ta2, tb2)))
     if isinstance(a, str) and isinstance(b, str) and op == "Add":
         return a + b
     if isinstance(a, str) and op == "Mult" and is_conc(b):
@@ -387,6 +418,8 @@ def seq_len(it, v):
         o = it.ctx.obj(v)
         if isinstance(o, HList):
             return len(o.items)
+        if isinstance(o, HSeq):
+            return o.term.length
         if isinstance(o, HDict):
             return len(o.keys)
         if isinstance(o, HSet):
